@@ -168,20 +168,22 @@ func writeVC(b *strings.Builder, v value.Value, canon bool) {
 		b.WriteString("]")
 	case v.IsMap():
 		m := v.AsMap()
-		type kv struct {
-			k string
-			v value.Value
-		}
-		var kvs []kv
-		m.Iterate(func(k string, x value.Value) bool {
-			kvs = append(kvs, kv{k, x})
+		// the Value handed to an Iterate callback is only valid during the callback: keep keys only
+		var keys []string
+		m.Iterate(func(k string, _ value.Value) bool {
+			keys = append(keys, k)
 			return true
 		})
-		sort.SliceStable(kvs, func(i, j int) bool { return kvs[i].k < kvs[j].k })
+		sort.Strings(keys)
 		b.WriteString("{")
-		for _, e := range kvs {
-			b.WriteString(Str(e.k))
-			writeVC(b, e.v, canon)
+		for _, k := range keys {
+			x, ok := m.Get(k)
+			b.WriteString(Str(k))
+			if !ok {
+				b.WriteString("!lost")
+				continue
+			}
+			writeVC(b, x, canon)
 		}
 		b.WriteString("}")
 	default:
